@@ -1,40 +1,66 @@
-"""C04 — the signature is the protocol's double CRC-16."""
+"""C04 — the signature is the protocol's double CRC-16 for every byte string."""
+import binascii
 import lib
 from aioswitcher.device.tools import sign_packet_with_crc_key
 COQ_TARGET = "C04"
-TRUSTED = ["binascii.crc_hqx modelled by the table-driven CRC (compared on every case)"]
-ASSUMPTIONS = ["hex strings are compared as Python str; non-ASCII str input is only checked to raise"]
-RULE = ("hex spellings of byte strings: all of length 0..1, random or all of length 2, random up to 4 KiB in lower/upper/mixed "
-        "case, malformed (odd, non-hex, blanks, non-ASCII); non-trivial = well-formed hex of at least one byte")
-REQUIREMENT = "out = p ++ hexlify(le16(crc(p)) ++ le16(crc(le16(crc(p)) ++ 0x30*32))), CRC-16/CCITT init 0x1021; malformed input raises"
-def corpus(): return ["", "fef0", "FEF0", "fef", "zz"]
+TRUSTED = ["binascii.crc_hqx is modelled by the table-driven CRC of CPython's binascii.c (compared on every case of this run "
+           "and directly on random buffers)"]
+ASSUMPTIONS = ["hex strings are Python str; a non-ASCII or non-hex str is only required to raise",
+               "the implementation is called in-process with PYTHONPATH=/repo/src"]
+RULE = ("hex spellings of byte strings: the regression corpus, every string of length 0..1, 4096 random (thorough: all 65536) "
+        "of length 2, every single-bit flip of the signed frames of tests/test_api_packet_crc_signing.py shapes, random strings "
+        "up to 4 KiB in lower/upper/mixed case, and a malformed stream (odd length, non-hex, blanks, non-ASCII); "
+        "non-trivial = distinct well-formed hex of at least one byte")
+REQUIREMENT = ("sign(p) = p ++ hex(le16(c) ++ le16(crc(le16(c) ++ 0x30*32))) with c = crc(unhex p), CRC-16/CCITT poly 0x1021 "
+               "init 0x1021, bit-serial definition (Spec/Sign.v); input that is not valid hex raises")
+HEXCHARS = set("0123456789abcdefABCDEF")
+FRAMES = ["fef052000232a10000000000340001000000000000000000d8a5f36200000000000000000000f0fe1c" + "00" * 37,
+          "fef0300002320103aabbccdd340001000000000000000000d8a5f36200000000000000000000f0fea1b2c300",
+          "fef05d0002320102aabbccdd340001000000000000000000d8a5f36200000000000000000000f0fea1b2c3" + "00" * 36 + "0001060001" + "00" + "08070000"]
+
+def wellformed(p): return len(p) % 2 == 0 and all(c in HEXCHARS for c in p)
+def impl(p):
+    try: return "ok " + sign_packet_with_crc_key(p)
+    except Exception: return "raised"
+def view(text): return text if text.startswith("ok ") else "raised"
+
 def cases(tier, rnd):
-    cs = ["%02x" % a for a in range(256)]
+    cs = ["", "fef0", "FEF0", "fef", "zz"]                       # corpus
+    cs += ["%02x" % a for a in range(256)]
     cs += ["%02x%02x" % (a, b) for a in range(256) for b in range(256)] if tier == "thorough" else \
           ["%02x%02x" % (rnd.randrange(256), rnd.randrange(256)) for _ in range(4096)]
-    for _ in range(20000 if tier == "thorough" else 500):
+    for f in FRAMES:
+        b = bytes.fromhex(f)
+        flips = [(i, j) for i in range(len(b)) for j in range(8)]
+        if tier != "thorough": flips = rnd.sample(flips, 120)
+        for i, j in flips:
+            x = bytearray(b); x[i] ^= 1 << j; cs.append(x.hex())
+    for _ in range(20000 if tier == "thorough" else 600):
         s = bytes(rnd.randrange(256) for _ in range(rnd.choice([rnd.randrange(64), rnd.randrange(4096)]))).hex()
         k = rnd.random()
         cs.append(s.upper() if k < .2 else "".join(ch.upper() if rnd.random() < .5 else ch for ch in s) if k < .3 else s)
-    return cs + ["f", "fe f0", " fef0", "fef0 ", "0x", "fe\n", "g0", "שש", "fe-0", "+f", "f" * 4097]
-def impl(p):
-    try: return ["ok", sign_packet_with_crc_key(p)]
-    except Exception as e: return ["exc", type(e).__name__]
-def model_line(p): return "sign h:" + lib.H(p)
-def parse_model(l):
-    k, _, v = l.partition(" "); return ["ok", bytes.fromhex(v).decode()] if k == "ok" else ["exc", v]
-def view(r): return r if r[0] == "ok" else ["exc"]
-def check_line(p, i): return "check_sign h:%s h:%s" % (lib.H(p), lib.H(i[1])) if i[0] == "ok" else "check_sign_rejects h:" + lib.H(p)
-def python_oracle(p, i): return True
-def describe(p): return "sign(%r)" % (p[:40],)
-def nontrivial(p): return len(p) >= 2 and len(p) % 2 == 0 and all(c in "0123456789abcdefABCDEF" for c in p)
-def sample(p, i): return {"p": p[:80], "result": [i[0], i[1][:96]]}
-def distribution(cs):
-    d = {"len0-2": 0, "len3-64": 0, "len65+": 0, "malformed": 0}
-    for c in cs:
-        if not (len(c) % 2 == 0 and all(x in "0123456789abcdefABCDEF" for x in c)): d["malformed"] += 1
-        elif len(c) <= 4: d["len0-2"] += 1
-        elif len(c) <= 128: d["len3-64"] += 1
-        else: d["len65+"] += 1
-    return d
-def exhaustive(tier): return tier == "thorough"   # the 65 793 strings of length 0..2 are enumerated completely
+    cs += ["f", "fe f0", " fef0", "fef0 ", "0x", "fe\n", "g0", "שש", "fe-0", "+f", "f" * 4097, "0" * 8191, "１２", "1_0", "fe\x00"]
+    return cs
+
+def run_cases(stream, cs, out):
+    io = [impl(p) for p in cs]
+    mo = lib.run_model([lib.req("sign", p) for p in cs])
+    ex = lib.run_model([lib.req("sign_spec", p) for p in cs])
+    def cls(p, i):
+        if not wellformed(p): return "malformed"
+        return "len0-2" if len(p) <= 4 else "len3-64" if len(p) <= 128 else "len65+"
+    lib.differential(out, stream, cs, io, mo, ex, lambda p: "sign(%r)" % (p if len(p) <= 64 else p[:60] + "...[%d chars]" % len(p)),
+                     nontrivial=lambda p: len(p) >= 2 and wellformed(p), sample=lambda p: p[:96], classify=cls)
+
+def run(tier, rnd, out):
+    run_cases("sign", cases(tier, rnd), out)
+    # the model's table-driven CRC against binascii.crc_hqx directly (the external call the model replaces)
+    bufs = [bytes(rnd.randrange(256) for _ in range(rnd.randrange(0, 300))) for _ in range(300)]
+    inits = [0x1021, 0, 0xffff] + [rnd.randrange(65536) for _ in range(297)]
+    got = lib.run_model([lib.req("crc", i, b) for b, i in zip(bufs, inits)])
+    want = [str(binascii.crc_hqx(b, i)) for b, i in zip(bufs, inits)]
+    lib.differential(out, "crc_hqx", list(zip([b.hex() for b in bufs], inits)), want, got, None, lambda c: "crc_hqx(%s.., %d)" % (c[0][:16], c[1]))
+    out.exhaustive = tier == "thorough"
+    out.notes.append("thorough enumerates all 65 793 byte strings of length 0..2 and every single-bit flip of three real frames")
+
+def replay(rp, out): run_cases(rp.get("stream", "sign"), [rp["input"]], out)
